@@ -12,6 +12,7 @@ member has no writable member at all (`C12_exception_sibling_const_witness`).  `
 roots whose whole type is free of const, and the remaining shape is reported by the check as a finding.
 -/
 import UtapModel.Lemmas.Const
+import UtapModel.Lemmas.ConstDecl
 
 namespace UtapModel.Const
 open UtapModel UtapModel.ConstGen
@@ -301,6 +302,104 @@ theorem C12_modifiable_is_lvalue : ∀ e : Ex, isModLv e = true → isLv e = tru
     exact applyClause_mod_lv _ _ _ _ _ _ _ _ _ _ _ (C12_modifiable_is_lvalue c) (C12_modifiable_is_lvalue a)
       (C12_modifiable_is_lvalue b) h
 
+/-! ### from declaration syntax to the declared type (the builder callbacks) -/
+
+/-- **Source-level constness reaches the type.**  A declaration on which `const` is written — directly, on a typedef it
+    names (to any depth), or on the element type below any number of array declarators, and also when the parameter is a
+    reference — is given by the builder a type that is declared const; so (with `C12_reject`) the declared object, every
+    element and every field of it are not modifiable lvalues. -/
+theorem C12_decl_const : ∀ d : Decl, d.isConst = true → d.elab.constDeclared = true
+  | .base b p, h => by
+    have hp : p = .const := by simpa [Decl.isConst] using h
+    subst hp
+    cases b <;> simp only [Decl.elab, elabBase] <;>
+      first
+      | exact constDeclared_viaCallback_const _ _
+      | exact constDeclared_createLabel _ _ (constDeclared_viaCallback_const _ _)
+  | .named p n body, h => by
+    simp only [Decl.isConst, Bool.or_eq_true] at h
+    simp only [Decl.elab]
+    rcases h with h | h
+    · have hp : p = .const := by simpa using h
+      subst hp
+      exact constDeclared_viaCallback_const _ _
+    · exact constDeclared_viaCallback _ _ _ (constDeclared_createLabel _ _ (C12_decl_const body h))
+  | .struct p fs, h => by
+    have hp : p = .const := by simpa [Decl.isConst] using h
+    subst hp
+    simp only [Decl.elab]
+    exact constDeclared_viaCallback_const _ _
+  | .array e, h => by
+    have ih := C12_decl_const e (by simpa [Decl.isConst] using h)
+    simp [Decl.elab, Ty.constDeclared, Children.constDeclared0, ih, wrapperKinds]
+  | .ref d, h => by
+    have ih := C12_decl_const d (by simpa [Decl.isConst] using h)
+    simp only [Decl.elab]
+    exact constDeclared_wrapKinds _ _ refParamKinds_wrappers ih
+
+-- `typedef const int ci;  void f(ci &p[3][2])`-like: reference to a two-dimensional array of a typedef'd const
+example : (Decl.ref (.array (.array (.named .none "ci" (.base .int .const))))).isConst = true := by decide
+
+/-- An identifier declared that way is const-rooted, hence (C12_reject) never a modifiable lvalue, and neither is any
+    path into it. -/
+theorem C12_decl_const_rejected (d : Decl) (x : String) (h : d.isConst = true) :
+    constRooted (.ident x d.elab) = true ∧ isModLv (.ident x d.elab) = false := by
+  have hc : constRooted (.ident x d.elab) = true := by simpa [constRooted] using C12_decl_const d h
+  exact ⟨hc, C12_reject _ hc⟩
+
+mutual
+  /-- **…and its absence too.**  A declaration in which `const` occurs nowhere (nor in the typedefs it names, nor in its
+      fields) gets a type without any const part: every path into the declared object is a modifiable lvalue
+      (`C12_accept`). -/
+  theorem C12_decl_constFree : ∀ d : Decl, d.constFree = true → d.elab.clean = true
+    | .base b p, h => by
+      have hp : p ≠ .const := by simpa [Decl.constFree] using h
+      cases b <;> simp only [Decl.elab, elabBase]
+      · exact clean_viaCallback _ _ _ hp (by decide)
+      · refine clean_viaCallback _ _ _ hp ?_
+        split
+        · exact clean_rangeInt
+        · decide
+      · exact clean_viaCallback _ _ _ hp (by decide)
+      · exact clean_viaCallback _ _ _ hp clean_rangeInt
+      · exact clean_viaCallback _ _ _ hp (by decide)
+      · exact clean_createLabel _ _ (clean_viaCallback _ _ _ hp (clean_createRange _ (by decide)))
+    | .named p n body, h => by
+      simp only [Decl.constFree, Bool.and_eq_true, bne_iff_ne, ne_eq] at h
+      simp only [Decl.elab]
+      exact clean_viaCallback _ _ _ h.1 (clean_createLabel _ _ (C12_decl_constFree body h.2))
+    | .struct p fs, h => by
+      simp only [Decl.constFree, Bool.and_eq_true, bne_iff_ne, ne_eq] at h
+      simp only [Decl.elab]
+      refine clean_viaCallback _ _ _ h.1 ?_
+      have hf := C12_fields_constFree fs h.2
+      have hk : nonMutableKinds.contains Kind.kRECORD = false := by decide
+      simp only [Ty.clean, Ty.noneOf, hk, hf, Bool.not_false, Bool.and_self]
+    | .array e, h => by
+      have ih := C12_decl_constFree e (by simpa [Decl.constFree] using h)
+      have hr := clean_rangeInt
+      have hk : nonMutableKinds.contains Kind.kARRAY = false := by decide
+      simp only [Ty.clean] at ih hr ⊢
+      simp only [Decl.elab, Ty.noneOf, Children.noneOf, ih, hr, hk, Bool.not_false, Bool.and_self]
+    | .ref d, h => by
+      have ih := C12_decl_constFree d (by simpa [Decl.constFree] using h)
+      simp only [Decl.elab]
+      exact clean_wrapKinds _ _ refParamKinds_good ih
+  theorem C12_fields_constFree : ∀ fs : DeclFields, fs.constFree = true → fs.elab.noneOf nonMutableKinds = true
+    | .nil, _ => by simp [DeclFields.elab, Children.noneOf]
+    | .cons n d r, h => by
+      simp only [DeclFields.constFree, Bool.and_eq_true] at h
+      have h1 := C12_decl_constFree d h.1
+      have h2 := C12_fields_constFree r h.2
+      simp only [Ty.clean] at h1
+      simp only [DeclFields.elab, Children.noneOf, h1, h2, Bool.and_self]
+end
+
+theorem C12_decl_constFree_accepted (d : Decl) (x : String) (h : d.constFree = true) :
+    mutTarget (.ident x d.elab) = true ∧ isModLv (.ident x d.elab) = true := by
+  have hm : mutTarget (.ident x d.elab) = true := by simpa [mutTarget] using C12_decl_constFree d h
+  exact ⟨hm, C12_accept _ hm⟩
+
 /-! ### the exception: a mutable member next to a const array member -/
 
 /-- `struct { const int k[2]; int v; } kk;  kk.v = 1`:  `kk.v` is not const-rooted, yet it is not a modifiable lvalue. -/
@@ -308,6 +407,10 @@ def witnessSiblingConst : Ex :=
   .dot (.ident "kk" (Ty.mk .kLABEL (.cons "K" (Ty.mk .kRECORD
     (.cons "k" (Ty.mk .kARRAY (.cons "" (Ty.mk .kCONSTANT (.cons "" (Ty.prim .kINT) .nil)) (.cons "" (Ty.prim .kINT) .nil)))
     (.cons "v" (Ty.mk .kRANGE (.cons "" (Ty.prim .kINT) .nil)) .nil))) .nil))) 1
+
+/-- why the shape exists: `struct_field` refuses a field only when `type.is(CONSTANT)`, and `is` does not look through ARRAY -/
+theorem C12_exception_const_array_member_passes_struct_field :
+    (Decl.array (.base .int .const)).isConst = true ∧ ((Decl.array (.base .int .const)).elab.is .kCONSTANT) = false := by decide
 
 theorem C12_exception_sibling_const_witness :
     constRooted witnessSiblingConst = false ∧ (typeOf witnessSiblingConst).isMutable = true ∧
